@@ -103,6 +103,9 @@ func (e *Enc) unknownCall(st *bstate, key string, pos token.Pos) {
 }
 
 func (e *Enc) canInline(f *ssa.Function) bool {
+	if f == e.fn || e.inlineStack[f] {
+		return false
+	}
 	if len(f.Blocks) == 0 || len(f.Blocks) > maxInlineBlocks || e.depth >= maxInlineDepth {
 		return false
 	}
@@ -132,7 +135,8 @@ func (e *Enc) canInline(f *ssa.Function) bool {
 func (e *Enc) inlineCall(fr *frame, st *bstate, callee *ssa.Function, args, bindings []Val, resType types.Type, pos token.Pos) Val {
 	e.inlines[funcKey(callee)] = true
 	e.depth++
-	defer func() { e.depth-- }()
+	e.inlineStack[callee] = true
+	defer func() { e.depth--; delete(e.inlineStack, callee) }()
 	sub := &frame{fn: callee, inlined: true}
 	// bind params; save previous bindings for recursion safety
 	saved := map[ssa.Value]Val{}
@@ -324,13 +328,47 @@ func (e *Enc) applyContract(fr *frame, st *bstate, c *Contract, callee *ssa.Func
 		e.havocAll(st, c.Key)
 	} else {
 		for _, m := range c.Modifies {
+			target := ""
+			if i := strings.Index(m, "@"); i >= 0 {
+				// "comp @ expr": only the object denoted by expr is modified
+				ex, err := parseCExpr(strings.TrimSpace(m[i+1:]))
+				if err != nil {
+					e.errors = append(e.errors, fmt.Sprintf("%s: modifies %q: %v", c.Src, m, err))
+					continue
+				}
+				env := mkEnv(pre)
+				tv, err := env.tr(ex)
+				if err != nil {
+					e.errors = append(e.errors, fmt.Sprintf("%s: modifies %q: %v", c.Src, m, err))
+					continue
+				}
+				target = tv.T
+				if tv.Sort == "Slice" {
+					target = app("sbase", tv.T)
+				}
+				m = strings.TrimSpace(m[:i])
+			}
 			for _, cn := range e.resolveCompSpecPkg(m, c.Pkg) {
 				comp := e.W.comps[cn]
 				if e.C != nil && e.C.HasMod && !e.inFrame(comp) {
-					// callee may modify pre-existing objects of a component outside our own frame
-					e.oblige(st, "frame", comp.Name+"@call "+shortKey(c.Key), "false", pos)
+					if target != "" {
+						e.W.needRoot()
+						g := app(">", app("root", target), e.entryAlloc)
+						if comp.Kind == "elems" {
+							g = sOr(sEq(target, "0"), g) // a nil slice has no elements
+						}
+						e.oblige(st, "frame", comp.Name+"@call "+shortKey(c.Key), g, pos)
+					} else {
+						// callee may modify pre-existing objects of a component outside our own frame
+						e.oblige(st, "frame", comp.Name+"@call "+shortKey(c.Key), "false", pos)
+					}
 				}
-				e.newHeapVersion(st, comp)
+				old := e.heapVar(st, comp)
+				nv := e.newHeapVersion(st, comp)
+				if target != "" {
+					k := e.fresh("modat", arrayRange(comp.Sort))
+					e.assert(sEq(nv, app("store", old, target, k)))
+				}
 			}
 		}
 		if !c.Pure {
@@ -357,7 +395,13 @@ func (e *Enc) applyContract(fr *frame, st *bstate, c *Contract, callee *ssa.Func
 		rv = e.freshVal(st, resType, "res."+shortKey(c.Key))
 		results = []Val{rv}
 	}
+	for _, r := range results {
+		e.assumeAllocated(st, r)
+	}
 	for _, cl := range c.Ensures {
+		if cl.Assumed {
+			e.externs[c.Key+" (assumed postcondition: "+cl.Text+")"] = true
+		}
 		env := mkEnv(st)
 		env.results = results
 		t, err := env.formula(cl.Expr)
